@@ -88,3 +88,8 @@ VARIANTS += [
     dict(id="c09-constraints-stored-by-reference", prop="C09", file="optuna/samplers/_base.py", expect="R09.9",
          old="        constraints = tuple(con)\n", new="        constraints = con\n"),
 ]
+
+VARIANTS += [
+    dict(id="c09-repair-copy-study-skips-revalidation", prop="C09", file=ST, expect=None, absent="copy-not-refused-by-revalidation",
+         old="        trial._validate()\n", new="        pass\n"),
+]
